@@ -10,12 +10,24 @@ import (
 
 // ---------- abstract inputs (replayable JSON; the same structure as coq/C20/Model.v) ----------
 
-// Val is a value: T = "n" number, "s" string code, "b" bool, "a" an array (opaque, identified by S).
+// Val is a value: T = "n" number, "s" string code, "b" bool, "a" an array of scalars L (an array given by a code
+// S only, as in older corpus files, stands for [s<S>, S]), "z" JSON null (observed only).
 type Val struct {
 	T string `json:"t"`
 	N int64  `json:"n,omitempty"`
 	S int    `json:"s,omitempty"`
 	B bool   `json:"b,omitempty"`
+	L []Val  `json:"l,omitempty"`
+}
+
+// norm expands the short form of an array.
+func (v Val) norm() Val {
+	if v.T == "a" && v.L == nil {
+		v.L = []Val{{T: "s", S: v.S}, {T: "n", N: int64(v.S)}}
+		v.S = 0
+	}
+
+	return v
 }
 
 // Attr is one credentialSubject leaf: K < 100 is the member a<K>, K = 100*o + k is the member a<k> of the nested
@@ -122,9 +134,9 @@ func coqVal(v Val) string {
 	case "s":
 		return "VStr " + hx.CoqN(v.S)
 	case "a":
-		return "VArr " + hx.CoqN(v.S)
-	case "z": // JSON null: no model value; an array code nothing else uses
-		return "VArr 999999%N"
+		return "VArr " + coqVals(v.norm().L)
+	case "z": // JSON null: no model value; an array nothing else is
+		return "VArr [VArr []]"
 	default:
 		return "VBool " + hx.CoqBool(v.B)
 	}
@@ -319,14 +331,40 @@ func valEq(a, b Val) bool {
 	switch a.T {
 	case "n":
 		return a.N == b.N
-	case "s", "a":
+	case "s":
 		return a.S == b.S
+	case "a":
+		x, y := a.norm().L, b.norm().L
+		if len(x) != len(y) {
+			return false
+		}
+
+		for i := range x {
+			if !valEq(x[i], y[i]) {
+				return false
+			}
+		}
+
+		return true
+	case "z":
+		return true
 	default:
 		return a.B == b.B
 	}
 }
 
 func (c Cred) get(k int) (Val, bool) {
+	if k >= 1000 { // element (k/1000 - 1) of the array member k % 1000
+		if v, ok := c.get(k % 1000); ok && v.T == "a" {
+			l := v.norm().L
+			if i := k/1000 - 1; i < len(l) {
+				return l[i], true
+			}
+		}
+
+		return Val{}, false
+	}
+
 	for _, a := range c.Attrs {
 		if a.K == k {
 			return a.V, true
